@@ -32,13 +32,16 @@ struct St
   std::string outcome_text;
   bool have_outcome;
   int depth_max;
+  int npre;
+  long pre_cut[24];
+  int pre_rejected;
 } *st;
 
 enum { F_SHORT = 0, F_FLIP, F_DROP, F_DUP, F_NUL, F_OPEN, F_TRUNC };
 const char *fault_names[] = {"short_read", "flipped_byte", "dropped_byte", "duplicated_byte", "nul_byte", "open_failure", "file_truncated", nullptr};
-enum { P_DOC = 0, P_RTERR, P_TREE_EQUAL, P_TRUNC_IN_STRING, P_TRUNC_IN_COMMENT, P_RAW_ACCEPTED, P_DEPTH_GE4, P_SHORT_READ_HIT, P_TRUNC_AFTER_BACKSLASH };
+enum { P_DOC = 0, P_RTERR, P_TREE_EQUAL, P_TRUNC_IN_STRING, P_TRUNC_IN_COMMENT, P_RAW_ACCEPTED, P_DEPTH_GE4, P_SHORT_READ_HIT, P_TRUNC_AFTER_BACKSLASH, P_PRE_GE8 };
 const char *probe_names[] = {"returned_document", "threw_runtime_error", "tree_compared_equal", "truncated_inside_quoted_string",
-                             "truncated_inside_comment", "raw_bytes_accepted_as_document", "tree_depth_ge_4", "short_read_refused_bytes", "cut_right_after_a_backslash", nullptr};
+                             "truncated_inside_comment", "raw_bytes_accepted_as_document", "tree_depth_ge_4", "short_read_refused_bytes", "cut_right_after_a_backslash", "eight_or_more_rejected_reads_before_the_document", nullptr};
 
 const char IDCH1[] = "abcXYZ_";
 const char IDCH[] = "abcxyzABC019_.";
@@ -234,6 +237,13 @@ void do_plan(int tier)
   }
   st->original.assign(text.begin(), text.end());
   st->bytes = st->original;
+  st->npre = 0;
+  st->pre_rejected = 0;
+  if (st->mode == 0 && sim_plan(4) == 0) {
+    st->npre = 1 + (int)sim_plan(20);
+    for (int i = 0; i < st->npre; i++)
+      st->pre_cut[i] = (long)sim_plan((uint32_t)text.size() + 1);
+  }
   if (st->mode == 1) {
     size_t n = st->bytes.size();
     unsigned k = sim_plan(15);
@@ -352,9 +362,9 @@ void describe(char *buf, size_t n)
     } else
       doc += (char)c;
   }
-  snprintf(buf, n, "{\"mode\": \"%s\", \"fault\": \"%s\", \"fault_offset\": %ld, \"file_bytes\": %zu, \"file\": \"%s\"}",
+  snprintf(buf, n, "{\"mode\": \"%s\", \"fault\": \"%s\", \"fault_offset\": %ld, \"truncated_reads_before\": %d, \"file_bytes\": %zu, \"file\": \"%s\"}",
            st->mode == 0 ? "valid document, fault-free" : (st->mode == 1 ? "valid document + device fault" : "raw bytes"), fn[st->fault], st->fault_arg,
-           st->bytes.size(), doc.c_str());
+           st->npre, st->bytes.size(), doc.c_str());
 }
 
 const SimScenario scen = {"c16", "C16", 16, reset, do_plan, a16_run, check, stuck, describe, fault_names, probe_names, 1, 0};
@@ -375,6 +385,16 @@ int a16_fault(long *arg)
   if (st->fault > A16_FAULT_SHORT_READ && st->fault != A16_RAW)
     sim_fault(map[st->fault], 1, 1);
   return st->fault;
+}
+int a16_pre_reads(void) { return st->npre; }
+long a16_pre_cut(int i) { return st->pre_cut[i]; }
+void a16_pre_outcome(int kind)
+{
+  sim_event(1610 + (uint32_t)kind, 0, 0);
+  if (kind == 2)
+    sim_fail_nonfatal("C16:exception-other-than-runtime_error", "readXML threw something else than runtime_error for a truncated document");
+  if (kind == 1 && ++st->pre_rejected == 8)
+    sim_probe(P_PRE_GE8);
 }
 void a16_outcome(int kind, const char *text)
 {
